@@ -50,6 +50,7 @@ from zoneinfo import ZoneInfo
 from mashumaro import DataClassDictMixin, field_options
 from mashumaro.config import BaseConfig
 from mashumaro.types import Alias
+from mashumaro.dialect import Dialect
 from mashumaro.codecs.basic import BasicEncoder as _BE
 def _wire(x):
     return _BE(type(x)).encode(x)
@@ -108,9 +109,11 @@ def leaf_value_src(r, kind, probe):
     if kind == "ipv6address":
         return f"ipaddress.IPv6Address({r.getrandbits(128)})"
     if kind == "ipv4network":
-        return r.choice(["ipaddress.IPv4Network('10.0.0.0/8')", "ipaddress.IPv4Network('192.168.1.0/24')", "ipaddress.IPv4Network('0.0.0.0/0')"])
+        # small networks only: inside a Union the speculative packer of an earlier list-like member *iterates* the
+        # network object (Union[List[str], IPv6Network] with ::/0 never returns and exhausts memory - a serializer defect)
+        return r.choice(["ipaddress.IPv4Network('10.0.0.0/31')", "ipaddress.IPv4Network('192.168.1.0/30')", "ipaddress.IPv4Network('8.8.8.8/32')"])
     if kind == "ipv6network":
-        return r.choice(["ipaddress.IPv6Network('2001:db8::/32')", "ipaddress.IPv6Network('::/0')"])
+        return r.choice(["ipaddress.IPv6Network('2001:db8::/126')", "ipaddress.IPv6Network('::1/128')"])
     if kind == "ipv4interface":
         return r.choice(["ipaddress.IPv4Interface('10.1.2.3/8')", "ipaddress.IPv4Interface('192.168.1.7/24')"])
     if kind == "ipv6interface":
@@ -205,8 +208,7 @@ def gen_data(r, tbl: Table, depth, probe, clsname=None, generic=False):
             c = r.random()
             a_meta = names[0] + str(i) if c < 0.6 else None
             a_cfg = names[1] + str(i) if r.random() < 0.6 else None
-            # an Annotated Alias that actually decides (no metadata alias) is a known finding: probe mode only
-            if r.random() < 0.4 and (a_meta is not None or probe):
+            if r.random() < 0.4:
                 a_ann = names[2] + str(i)
             if a_meta is None and a_cfg is None and a_ann is None:
                 a_meta = names[0] + str(i)
@@ -216,10 +218,38 @@ def gen_data(r, tbl: Table, depth, probe, clsname=None, generic=False):
         fields.append({"name": fname, "type": t, "default": default, "init": init,
                        "alias_meta": a_meta, "alias_ann": a_ann, "alias_cfg": a_cfg,
                        # key written by the serializer (by alias): metadata, else Annotated Alias, else Config.aliases
-                       "alias": a_meta if a_meta is not None else a_ann if a_ann is not None else a_cfg,
-                       # key the schema is *observed* to use where it ignores the Annotated Alias (known finding)
-                       "schema_alias": a_meta if a_meta is not None else a_cfg})
-    d = {"kind": "data", "name": name, "clsname": clsname or name, "fields": fields, "tvars": tvars}
+                       "alias": a_meta if a_meta is not None else a_ann if a_ann is not None else a_cfg})
+    # class-wide serialization options that the schema builder also reads (Config or Config.dialect)
+    cfg = {"omit_none": False, "nt_as_dict": False, "via_dialect": False}
+    if r.random() < 0.25 and not generic:
+        cfg["omit_none"] = r.random() < 0.6
+        cfg["nt_as_dict"] = r.random() < 0.5
+        cfg["via_dialect"] = r.random() < 0.3
+        # an option only matters next to the shapes it governs: add (as first, default-free fields)
+        # a NamedTuple-typed field resp. a container of Optionals
+        extra = []
+        if cfg["nt_as_dict"] or r.random() < 0.3:
+            nd = gen_nt(r, tbl, max(depth - 1, 1), probe)
+            extra.append({"name": "pt", "type": ("nt", nd["name"])})
+            if r.random() < 0.5:
+                extra.append({"name": "pts", "type": r.choice([("list", ("nt", nd["name"])), ("dict", ("str",), ("nt", nd["name"])),
+                                                                 ("opt", ("nt", nd["name"]))])})
+        if cfg["omit_none"]:
+            inner = ("opt", gen_type(r, tbl, 0, probe))
+            extra.append({"name": "on", "type": r.choice([("list", inner), ("dict", ("str",), inner), ("tuple", [inner, ("int",)]),
+                                                           ("tuplevar", inner), inner])})
+        for j, e in enumerate(extra):
+            e.update({"name": e["name"] + str(j), "default": None, "init": True, "alias_meta": None, "alias_ann": None,
+                      "alias_cfg": None, "alias": None})
+        fields[0:0] = extra
+    for f in fields:
+        f["nt_override"] = None
+        f["final"] = False
+        if f["type"][0] == "nt" and r.random() < 0.5:
+            f["nt_override"] = r.choice(["as_list", "as_dict"])     # field override beats the class-wide option
+        elif f["alias_ann"] is None and not contains_tvar(f["type"]) and r.random() < 0.08:
+            f["final"] = True
+    d = {"kind": "data", "name": name, "clsname": clsname or name, "fields": fields, "tvars": tvars, "cfg": cfg}
     tbl.add(d)
     return d
 
@@ -518,6 +548,8 @@ def decl_src(d, tbl: Table) -> str:
             ts = ty_src(f["type"], tbl, nts)
             if f.get("alias_ann") is not None:
                 ts = f"Annotated[{ts}, Alias({f['alias_ann']!r})]"
+            if f.get("final"):
+                ts = f"Final[{ts}]"
             opts = []
             if f["default"] is not None:
                 kind, vsrc = f["default"]
@@ -527,19 +559,36 @@ def decl_src(d, tbl: Table) -> str:
                     opts.append(f"default_factory=lambda: {vsrc}")
             if not f["init"]:
                 opts.append("init=False")
+            fo = []
             if f.get("alias_meta") is not None:
-                opts.append(f"metadata=field_options(alias={f['alias_meta']!r})")
+                fo.append(f"alias={f['alias_meta']!r}")
+            if f.get("nt_override") is not None:
+                fo.append(f"serialize={f['nt_override']!r}")
+            if fo:
+                opts.append(f"metadata=field_options({', '.join(fo)})")
             if f.get("alias_cfg") is not None:
                 aliases_cfg[f["name"]] = f["alias_cfg"]
             if opts:
                 body.append(f"    {f['name']}: {ts} = field({', '.join(opts)})")
             else:
                 body.append(f"    {f['name']}: {ts}")
-        if any_alias:
+        cfg = d.get("cfg") or {}
+        optlines = []
+        if cfg.get("omit_none"):
+            optlines.append("omit_none = True")
+        if cfg.get("nt_as_dict"):
+            optlines.append("namedtuple_as_dict = True")
+        if any_alias or optlines:
             body.append("    class Config(BaseConfig):")
-            body.append("        serialize_by_alias = True")
-            if aliases_cfg:
-                body.append(f"        aliases = {aliases_cfg!r}")
+            if any_alias:
+                body.append("        serialize_by_alias = True")
+                if aliases_cfg:
+                    body.append(f"        aliases = {aliases_cfg!r}")
+            if optlines and cfg.get("via_dialect"):
+                body.append("        class dialect(Dialect):")
+                body += ["            " + o for o in optlines]
+            else:
+                body += ["        " + o for o in optlines]
         elif not d["fields"]:
             body.append("    pass")
     elif d["kind"] == "nt":
@@ -691,7 +740,13 @@ def gen_value(r, t, tbl: Table, probe, depth=0):
                 continue
             if f["default"] is not None and r.random() < 0.4:
                 continue        # take the default
-            fs.append((f["name"], gen_value(r, subst(f["type"], env), tbl, probe, depth + 1)))
+            fv = gen_value(r, subst(f["type"], env), tbl, probe, depth + 1)
+            if fv == ("none",) and f["default"] is None and (d.get("cfg") or {}).get("omit_none") and not probe:
+                for _ in range(5):      # omit_none drops the key of a *required* field (known finding): probe mode only
+                    fv = gen_value(r, subst(f["type"], env), tbl, probe, depth + 1)
+                    if fv != ("none",):
+                        break
+            fs.append((f["name"], fv))
         return ("obj", t[1], fs)
     if k == "nt":
         d = tbl.by_name[t[1]]
